@@ -104,9 +104,29 @@ def free_names(fn):
     return used - own_names(fn)
 
 
-def usable_in(rn, tree):
-    """the reviewed text of a function may use module-level names the current module no longer binds"""
-    return not (free_names(rn) - {rn.name} - module_bound(tree))
+def usable_in(rn, tree, rtree=None):
+    """the reviewed text of a function may use module-level names the current module no longer binds; a name the reviewed module
+    imported (an import that became unused and was dropped) is imported again in the tree the rules see"""
+    missing = free_names(rn) - {rn.name} - module_bound(tree)
+    if not missing:
+        return True
+    if rtree is None or rtree == "same":
+        return False
+    add = []
+    for name in sorted(missing):
+        found = None
+        for node in rtree.body:
+            if isinstance(node, (ast.Import, ast.ImportFrom)):
+                for a in node.names:
+                    if (a.asname or a.name).split(".")[0] == name:
+                        found = copy.deepcopy(node)
+                        found.names = [copy.deepcopy(a)]
+        if found is None:
+            return False
+        add.append(found)
+    i = 1 if (tree.body and isinstance(tree.body[0], ast.Expr) and isinstance(tree.body[0].value, ast.Constant)) else 0
+    tree.body[i:i] = add
+    return True
 
 
 def _anon(fn, helpers, fnf):
@@ -139,12 +159,25 @@ def undo_moves(prog, ref, log):
         for name, rn in old.items():
             if name in cur:
                 continue
+            renamed_to = None
             for i, node in enumerate(m.tree.body):
                 if not isinstance(node, ast.ImportFrom):
                     continue
                 hit = [a for a in node.names if (a.asname or a.name) == name]
                 if not hit:
-                    continue
+                    # moved and renamed on the way: a name imported from a module of the package whose reviewed copy does not define it
+                    src_try = prog.modules.get(import_base(m, node))
+                    rt_src = ref.tree(src_try.name) if src_try is not None else None
+                    if src_try is None or rt_src is None:
+                        continue
+                    old_names = set(top_functions(src_try.tree if rt_src == "same" else rt_src))
+                    local_bound = module_bound(rt) | set(cur)
+                    hit = [a for a in node.names if a.name in top_functions(src_try.tree) and a.name not in old_names
+                           and (a.asname or a.name) not in local_bound
+                           and _anon(top_functions(src_try.tree)[a.name], _pure_helpers(src_try.tree), fnf) == _anon(rn, _pure_helpers(rt), fnf)]
+                    if len(hit) != 1:
+                        continue
+                    renamed_to = hit[0].asname or hit[0].name
                 src_mod = prog.modules.get(import_base(m, node))
                 if src_mod is None:
                     continue
@@ -152,7 +185,7 @@ def undo_moves(prog, ref, log):
                 if moved is None:
                     continue
                 a, b = _anon(moved, _pure_helpers(src_mod.tree), fnf), _anon(rn, _pure_helpers(rt), fnf)
-                if a is None or a != b or not usable_in(rn, m.tree):
+                if a is None or a != b or not usable_in(rn, m.tree, rt):
                     continue
                 node.names = [x for x in node.names if x is not hit[0]]
                 new = copy.deepcopy(rn)
@@ -160,20 +193,32 @@ def undo_moves(prog, ref, log):
                     m.tree.body.insert(i + 1, new)
                 else:
                     m.tree.body[i] = new
-                log.append("%s:%s (moved to %s, imported back)" % (mname, name, src_mod.name))
+                if renamed_to:
+                    for n in ast.walk(m.tree):
+                        if isinstance(n, ast.Name) and n.id == renamed_to:
+                            n.id = name
+                prog.moved[(src_mod.name, hit[0].name)] = (mname, name)          # the copy that stays behind is the same reviewed function
+                log.append("%s:%s (moved to %s%s, imported back)" % (mname, name, src_mod.name, " as " + renamed_to if renamed_to else ""))
                 break
 
 
 # ---------------------------------------------------------------------------------------------------------------- inherited methods
 def undo_pull_ups(prog, ref, log):
-    """C.m of the reviewed copy is gone and a base class of C in the same module now defines m: if that method, with `self.K` replaced by
-    the constant C binds to K in its class body, has the normal form of the reviewed C.m, the reviewed C.m is put back"""
+    """C.m of the reviewed copy is gone and a base class of C (in the same module, or imported from another module of the package) now
+    defines m: if that method, with `self.K` / `cls.K` replaced by the constant C binds to K in its class body, has the normal form of the
+    reviewed C.m, the reviewed C.m is put back"""
     from .fnf import fnf
+
+    def cur_ref(mod):
+        t = ref.tree(mod)
+        cur = prog.modules[mod].tree
+        return (cur, cur if t in ("same", None) else t)
     for mname in ref.changed():
         m, rt = prog.modules[mname], ref.tree(mname)
         ccls, rcls = top_classes(m.tree), top_classes(rt)
         hc, hr = _pure_helpers(m.tree), _pure_helpers(rt)
-        stored = {n.attr for n in ast.walk(m.tree) if isinstance(n, ast.Attribute) and isinstance(n.ctx, (ast.Store, ast.Del))}
+        stored = {n.attr for mm in prog.modules.values() for n in ast.walk(mm.tree)
+                  if isinstance(n, ast.Attribute) and isinstance(n.ctx, (ast.Store, ast.Del))}
         for cname, rc in rcls.items():
             cc = ccls.get(cname)
             if cc is None:
@@ -182,25 +227,34 @@ def undo_pull_ups(prog, ref, log):
             for meth, rn in methods_of(rc).items():
                 if meth in cm:
                     continue
-                # walk the bases (by name, same module) breadth first
-                seen, queue, found = set(), [b.id for b in cc.bases if isinstance(b, ast.Name)], None
-                while queue and found is None:
-                    b = queue.pop(0)
-                    if b in seen or b not in ccls:
-                        continue
-                    seen.add(b)
-                    if meth in methods_of(ccls[b]):
-                        found = methods_of(ccls[b])[meth]
-                    else:
-                        queue += [x.id for x in ccls[b].bases if isinstance(x, ast.Name)]
+                # walk the bases breadth first
+                visited, queue, found = [], [(cc, m, m.tree)], None
+                while queue and found is None and len(visited) < 12:
+                    k, km, ktree = queue.pop(0)
+                    for b in k.bases:
+                        if not isinstance(b, ast.Name):
+                            continue
+                        bc, _new = resolve_class(prog, km, ktree, b.id, cur_ref)
+                        if bc is None or bc in visited:
+                            continue
+                        visited.append(bc)
+                        if meth in methods_of(bc):
+                            found = methods_of(bc)[meth]
+                            break
+                        home = next((mm for mm in prog.modules.values() if bc in mm.tree.body), km)
+                        queue.append((bc, home, home.tree))
                 if found is None:
                     continue
                 consts = {}
-                for klass in [cc] + [ccls[b] for b in seen]:
+                for klass in [cc] + visited:
                     for st in klass.body:
                         if isinstance(st, ast.Assign) and len(st.targets) == 1 and isinstance(st.targets[0], ast.Name) and \
                                 isinstance(st.value, (ast.Constant, ast.Name, ast.Attribute)) and st.targets[0].id not in stored:
                             consts.setdefault(st.targets[0].id, st.value)
+                        elif isinstance(st, ast.Assign) and len(st.targets) == 1 and isinstance(st.targets[0], ast.Name) and \
+                                isinstance(st.value, ast.Call) and isinstance(st.value.func, ast.Name) and st.value.func.id == "staticmethod" and \
+                                len(st.value.args) == 1 and isinstance(st.value.args[0], (ast.Name, ast.Attribute)) and st.targets[0].id not in stored:
+                            consts.setdefault(st.targets[0].id, st.value.args[0])        # K = staticmethod(f): self.K(..) calls f(..)
                 selfname = found.args.args[0].arg if found.args.args else None
 
                 class Spec(ast.NodeTransformer):
@@ -210,11 +264,18 @@ def undo_pull_ups(prog, ref, log):
                             return copy.deepcopy(consts[n.attr])
                         return n
                 spec = ast.fix_missing_locations(_prune_constant_tests(Spec().visit(copy.deepcopy(found))))
+                # a classmethod whose `cls` was only used to reach the class constants is the reviewed staticmethod
+                is_cm = any(isinstance(d, ast.Name) and d.id == "classmethod" for d in spec.decorator_list)
+                ref_static = any(isinstance(d, ast.Name) and d.id == "staticmethod" for d in rn.decorator_list)
+                uses_self = any(isinstance(n, ast.Name) and n.id == selfname for st in spec.body for n in ast.walk(st))
+                if selfname and not uses_self and ref_static and (is_cm or not spec.decorator_list):
+                    spec.args.args = spec.args.args[1:]
+                    spec.decorator_list = copy.deepcopy(rn.decorator_list)
                 try:
                     same = fnf(spec, hc) == fnf(rn, hr)
                 except Exception:
                     same = False
-                if same and usable_in(rn, m.tree):
+                if same and usable_in(rn, m.tree, rt):
                     cc.body.append(copy.deepcopy(rn))
                     log.append("%s:%s.%s (inherited from a base class, specialised by class constants)" % (mname, cname, meth))
 
@@ -340,6 +401,43 @@ def private_helpers(prog, ref, m, tree_self, tree_other, other_of):
     return out
 
 
+def resolve_class(prog, m, tree, name, other_of):
+    """class `name` as seen from module m (tree = the side's tree of m): defined there, or imported from a module of the package;
+    -> (class node, True if the class does not exist on the other side)"""
+    cls = top_classes(tree).get(name)
+    if cls is not None:
+        other = other_of(m.name)[1]
+        return cls, name not in top_classes(other)
+    for node in tree.body:
+        if isinstance(node, ast.ImportFrom):
+            for a in node.names:
+                if (a.asname or a.name) == name:
+                    src = prog.modules.get(import_base(m, node))
+                    if src is None:
+                        return None, False
+                    s_self, s_other = other_of(src.name)
+                    c2 = top_classes(s_self).get(a.name) if s_self is not None else None
+                    if c2 is None:
+                        return None, False
+                    return c2, (s_other is None or a.name not in top_classes(s_other))
+    return None, False
+
+
+def new_bases(prog, m, tree, klass, other_of, depth=3):
+    """base classes of klass (by name, through imports) that exist on this side only"""
+    out, todo = [], [(klass, 0)]
+    while todo:
+        k, d = todo.pop(0)
+        for b in k.bases:
+            if isinstance(b, ast.Name):
+                c, is_new = resolve_class(prog, m, tree, b.id, other_of)
+                if c is not None and is_new and c not in out:
+                    out.append(c)
+                    if d < depth:
+                        todo.append((c, d + 1))
+    return out
+
+
 def _strip_doc(body):
     if body and isinstance(body[0], ast.Expr) and isinstance(body[0].value, ast.Constant) and isinstance(body[0].value.value, str):
         return body[1:]
@@ -390,6 +488,22 @@ def _bind(h, call, first=None):
     return [(p, out[p]) for p in params], [x for x in args] + [k.value for k in call.keywords]
 
 
+def _private_names(h, tag):
+    """parameters and locals of a helper that becomes a local function get names no caller uses (a shared name would only look like a
+    captured variable to the normal form)"""
+    ren = {}
+    for a in h.args.posonlyargs + h.args.args + h.args.kwonlyargs:
+        ren[a.arg] = "%s__%s" % (a.arg, tag)
+        a.arg = ren[a.arg]
+    for n in ast.walk(h):
+        if isinstance(n, ast.Name) and isinstance(n.ctx, (ast.Store, ast.Del)) and n.id not in ren:
+            ren[n.id] = "%s__%s" % (n.id, tag)
+    for n in ast.walk(h):
+        if isinstance(n, ast.Name) and n.id in ren:
+            n.id = ren[n.id]
+    return h
+
+
 def with_helpers(fn, funcs, meths, depth=3):
     """a copy of fn in which the calls of the given helper functions (module level) and helper methods (`self.m(..)`) that stand as a whole
     statement -- `h(..)`, `x = h(..)`, `return h(..)`, `yield from h(..)` -- are replaced by the helper's statements: arguments are bound,
@@ -407,7 +521,7 @@ def with_helpers(fn, funcs, meths, depth=3):
         if isinstance(call.func, ast.Name) and call.func.id in funcs and call.func.id not in locals_fn:
             return funcs[call.func.id][0], None
         if meths and isinstance(call.func, ast.Attribute) and isinstance(call.func.value, ast.Name) and call.func.value.id == selfname and \
-                call.func.attr in meths and not meths[call.func.attr].decorator_list:
+                isinstance(meths.get(call.func.attr), ast.AST) and not meths[call.func.attr].decorator_list:
             return meths[call.func.attr], ast.Name(id=selfname, ctx=ast.Load())
         return None, None
 
@@ -514,7 +628,52 @@ def with_helpers(fn, funcs, meths, depth=3):
         locals_fn = own_names(f2)
     else:
         pass
+    # calls left inside expressions: single-expression helpers become local functions, which the normal form writes out in place
+    defs = []
+    locals_fn = own_names(f2)
+
+    def single_return(h):
+        body = _strip_doc(list(h.body))
+        return len(body) == 1 and isinstance(body[0], ast.Return) and body[0].value is not None and \
+            not any(isinstance(x, (ast.Lambda, ast.Yield, ast.YieldFrom, ast.Await)) for x in ast.walk(body[0]))
+    if meths and selfname:
+        cls_names = set(meths.get("__class_names__", ()))
+        for n in ast.walk(f2):
+            if not (isinstance(n, ast.Call) and isinstance(n.func, ast.Attribute) and isinstance(n.func.value, ast.Name)):
+                continue
+            recv, mname = n.func.value.id, n.func.attr
+            h = meths.get(mname)
+            if not isinstance(h, ast.AST) or not single_return(h):
+                continue
+            static = any(isinstance(d, ast.Name) and d.id == "staticmethod" for d in h.decorator_list)
+            other = [d for d in h.decorator_list if not (isinstance(d, ast.Name) and d.id == "staticmethod")]
+            if other or not (recv == selfname or (static and recv in cls_names)):
+                continue
+            if free_names(h) & (locals_fn - {fn.name}):
+                continue
+            local = "_m_%s" % mname
+            if local in locals_fn:
+                continue
+            n.func = ast.copy_location(ast.Name(id=local, ctx=ast.Load()), n.func)
+            if not static:
+                n.args = [ast.copy_location(ast.Name(id=selfname, ctx=ast.Load()), n)] + n.args
+            if local not in [d.name for d in defs]:
+                h2 = _private_names(copy.deepcopy(h), mname.strip("_"))
+                h2.name, h2.decorator_list = local, []
+                defs.append(h2)
+            counter[0] += 1
+    for n in ast.walk(f2):
+        if isinstance(n, ast.Name) and isinstance(n.ctx, ast.Load) and n.id in funcs and n.id not in locals_fn and n.id not in [d.name for d in defs]:
+            h = funcs[n.id][0]
+            if not single_return(h) or h.args.defaults or h.args.vararg or h.args.kwarg or h.args.kwonlyargs or (free_names(h) & (locals_fn - {fn.name})):
+                continue
+            defs.append(_private_names(copy.deepcopy(h), h.name.strip("_")))
+            counter[0] += 1
     if counter[0] == 0:
         return None
+    if defs:
+        i = 1 if (f2.body and isinstance(f2.body[0], ast.Expr) and isinstance(f2.body[0].value, ast.Constant)
+                  and isinstance(f2.body[0].value.value, str)) else 0
+        f2.body[i:i] = defs
     ast.fix_missing_locations(f2)
     return f2
